@@ -93,6 +93,9 @@ OPTSETS = {
     'r-p': (['-r', '-p'], dict(recursive=True, page_requisites=True)),
     'p': (['-p'], dict(page_requisites=True)),
     'none': ([], dict()),
+    # one try per URL: nothing fails in these crawls, so the limit must never bind - unless
+    # something other than a failed fetch raises a try count (C03: a kill is not a try)
+    'r-t1': (['-r', '--tries', '1'], dict(recursive=True)),
     'r-np': (['-r', '--no-parent'], dict(recursive=True, no_parent=True)),
     'r-acc': (['-r', '--accept-regex', r'test/($|a|b|1|2|dir/|p|u|r1|m)'],
               dict(recursive=True, accept_regex=r'test/($|a|b|1|2|dir/|p|u|r1|m)')),
